@@ -18,7 +18,7 @@ func init() {
 		Rules: func(r *Run) {
 			ruleDefaultOnlyWhenAbsent(r)
 			ruleTimeParams(r)
-			ruleOpenLog(r)           // the resolved range is what the daemon is asked for: since/until spell the same instants
+			ruleOpenLog(r) // the resolved range is what the daemon is asked for: since/until spell the same instants
 		},
 	})
 }
